@@ -2,6 +2,7 @@
 from __future__ import annotations
 
 import json
+import copy
 import random
 
 from .. import build, enginecheck, gen, predict
@@ -148,6 +149,22 @@ def make_pairs(tier, rng):
                 j = gen.job(0, prog, prov, mode=mode)
                 j["meta"] = meta
                 pairs.append((j, f"explicit-edges/{gk}/N{n}"))
+    # the same loops with their topology DECLARED: exactly the edges inference creates, plus the gate -> target arrows
+    # a user would draw (legal: the pair carries no value, the gate still controls its target)
+    declared = []
+    for j, tag in pairs:
+        if tag.startswith("explicit-edges/") or j["meta"].get("nested") or "/nested/" in tag or rng.random() > (0.5 if thorough else 0.12):
+            continue
+        ed = gen.inferred_edges(j["prog"])
+        if not ed:
+            continue
+        for n in j["prog"]["nodes"]:
+            if n["kind"] in ("route", "ifelse"):
+                ed += [[n["name"], t] for t in n["targets"] if t != "END" and [n["name"], t] not in ed]
+        j2 = gen.job(0, dict(copy.deepcopy(j["prog"]), edges=ed), j["provided"], mode=j["mode"])
+        j2["meta"] = j["meta"]
+        declared.append((j2, "declared-edges/" + tag))
+    pairs += declared
     for i, (j, _) in enumerate(pairs):
         j["id"] = i + 1
     return pairs
